@@ -11,6 +11,7 @@ CALLEE_SAVED = ["rbx", "rbp", "r12", "r13", "r14", "r15"]
 STACK_TOP = 0x7FFE00100000
 STACK_SIZE = 0x10000
 REGION_STRIDE = 0x10000000
+REGION_BASE = 0x100000000000   # far above the (randomised, up to +1 GiB) brk heap of the native driver
 
 
 class Setup:
@@ -27,13 +28,13 @@ class Setup:
     def region(self, name, size, r=True, w=False, init=None, offset=0, pad=0):
         """init: list of byte values / None.  Region is placed at a fresh base + offset (alignment sweep)."""
         self._n += 1
-        base = REGION_STRIDE * self._n + offset
+        base = REGION_BASE + REGION_STRIDE * self._n + offset
         g = 0
         if self.guard == "hi" and size:
-            base = REGION_STRIDE * self._n + 0x100000 - size
+            base = REGION_BASE + REGION_STRIDE * self._n + 0x100000 - size
             g = 1
         elif self.guard == "lo" and size:
-            base = REGION_STRIDE * self._n + 0x100000
+            base = REGION_BASE + REGION_STRIDE * self._n + 0x100000
             g = 2
         self.regions.append(dict(name=name, base=base, size=size, r=r, w=w, init=init, guard=g))
         return base
@@ -42,7 +43,7 @@ class Setup:
         st = State(self.img)
         for rg in self.regions:
             st.mem.add_region(Region(rg["name"], rg["base"], rg["size"], rg["r"], rg["w"]), rg["init"])
-        sp = STACK_TOP - 0x1000
+        sp = STACK_TOP - 0x1000 - 8   # SysV: rsp+8 is 16-byte aligned at function entry
         stack = Region("stack", STACK_TOP - STACK_SIZE, STACK_SIZE, True, True, kind="stack")
         st.mem.add_region(stack, None)
         for i in range(0x1000):
@@ -86,7 +87,11 @@ DRIVER_C = r'''
 #include <stdlib.h>
 #include <string.h>
 #include <stdint.h>
+#define _GNU_SOURCE
 #include <sys/mman.h>
+#ifndef MAP_FIXED_NOREPLACE
+#define MAP_FIXED_NOREPLACE 0x100000
+#endif
 typedef uint64_t (*fn6)(uint64_t,uint64_t,uint64_t,uint64_t,uint64_t,uint64_t);
 %(externs)s
 static struct { const char *n; void *f; } tab[] = { %(table)s {0,0} };
@@ -101,7 +106,7 @@ int main(void) {
             scanf("%%lx %%lu %%d", &base[r], &size[r], &guard);
             uint64_t pb = (base[r] & ~4095ull) - 4096, pe = ((base[r] + size[r] + 4095 + 64) & ~4095ull) + 4096;
             if (guard == 1) pe = base[r] + size[r] + 4096;
-            void *p = mmap((void*)pb, pe - pb, PROT_READ|PROT_WRITE, MAP_PRIVATE|MAP_ANONYMOUS|MAP_FIXED, -1, 0);
+            void *p = mmap((void*)pb, pe - pb, PROT_READ|PROT_WRITE, MAP_PRIVATE|MAP_ANONYMOUS|MAP_FIXED_NOREPLACE, -1, 0);
             if (p != (void*)pb) { printf("ERR mmap %%lx %%lx\n", pb, pe); perror("mmap"); return 2; }
             memset(p, 0xEE, pe - pb);
             for (uint64_t i = 0; i < size[r]; i++) { unsigned v; scanf("%%2x", &v); ((uint8_t*)base[r])[i] = v; }
